@@ -1,0 +1,37 @@
+//go:build verif
+
+package main
+
+import (
+	"encoding/json"
+
+	"github.com/ludo-technologies/pyscn/domain"
+)
+
+func init() {
+	// score: run AnalyzeSummary.CalculateHealthScore on a given summary.
+	register("score", func(raw json.RawMessage) (interface{}, error) {
+		var req struct {
+			Summary domain.AnalyzeSummary `json:"summary"`
+		}
+		if err := json.Unmarshal(raw, &req); err != nil {
+			return nil, err
+		}
+		s := req.Summary
+		err := s.CalculateHealthScore()
+		errStr := ""
+		if err != nil {
+			errStr = err.Error()
+		}
+		return map[string]interface{}{
+			"health": s.HealthScore,
+			"grade":  s.Grade,
+			"scores": []int{s.ComplexityScore, s.DeadCodeScore, s.DuplicationScore, s.CouplingScore,
+				s.CohesionScore, s.DependencyScore, s.ArchitectureScore},
+			"fallback":   s.CalculateFallbackScore(),
+			"grade_of":   domain.GetGradeFromScore(s.HealthScore),
+			"invalid":    errStr != "",
+			"is_healthy": s.IsHealthy(),
+		}, nil
+	})
+}
